@@ -44,6 +44,8 @@ OBLIGATIONS = [
     (P + "response_wire_eq_fcgi", "FastCGI: same; wire = well-formed records for request 1 whose STDOUT stream = header block ++ bytes that left the chain"),
     (P + "response_wire_eq_http", "HTTP 1.0/1.1 +- keep-alive: same, given clean headers and a respected Content-Length: wire = one head ++ framed body, RFC 7230 client decodes exactly the bytes that left the chain"),
     (P + "http_ready_of_clean_headers", "the header hypothesis of response_wire_eq_http follows from conditions on the application's header set alone"),
+    (P + "http_headers_ok_of_clean_container", "... which follow from conditions on the header container itself (names without colon/CR, values without CR, no Transfer-Encoding, decimal Content-Length); uses the map's case-insensitive uniqueness"),
+    (P + "client_field_values", "the field values an RFC 7230 client sees under a name = the map entry's value under any spelling, then the added lines with that name"),
     (P + "client_sees_app_bytes", "generic form: for any protocol presentation with a round-trip theorem the independent de-framer returns one head and the bytes that left the chain"),
     (P + "done_body_unique", "the Z of the theorems above is determined by the response"),
     (P + "store_page_stores_sent_bytes", "store_page on an armed response stores, under the variant compressed-iff-gzip_buf, exactly the bytes Z sent towards the client; read-back returns Z"),
